@@ -40,8 +40,9 @@ def text_chars(term):
         return None
     t = term[1]
     trims = []
-    while t[0] in ("trim_start", "trim_end", "trim", "trim_end_matches", "trim_start_matches", "trim_matches"):
-        trims.append(t[0] if len(t) == 2 else (t[0], t[2]))
+    while t[0] in ("trim_start", "trim_end", "trim", "trim_end_matches", "trim_start_matches", "trim_matches", "substr"):
+        # (a sub-string is recorded like a trim: C13 compares the list with the specified clean-up)
+        trims.append(t[0] if len(t) == 2 else ((t[0], t[2]) if t[0] != "substr" else ("substr", repr(t[2]), repr(t[3]))))
         t = t[1]
     if t[0] != "utf8":
         return None
